@@ -96,10 +96,11 @@ func Remainder(left, right value.Value) error {
 			lv.Value %= (time.Duration(rv.Value) * time.Second)
 		case value.FloatType: // RTIME %= FLOAT
 			rv := value.Unwrap[*value.Float](right)
-			if time.Duration(rv.Value)*time.Second == 0 {
+			d := time.Duration(rv.Value * float64(time.Second))
+			if d == 0 {
 				return errors.WithStack(fmt.Errorf("division by zero"))
 			}
-			lv.Value %= (time.Duration(rv.Value) * time.Second)
+			lv.Value %= d
 		default:
 			return errors.WithStack(fmt.Errorf("invalid division RTIME type, got %s", right.Type()))
 		}
